@@ -31,7 +31,7 @@ func init() {
 		Assumptions: []string{
 			"the reference encoder / decoder and the generator work from the schema snapshot harness/ref/per/ngap_schema_snapshot.json (see C03), the library from its live struct tags",
 			"canonical encodings come from ref/per (self-tested at start); equality is field by field, nil and empty slices are equal, BIT STRINGs compare by their significant bits",
-			"values stay inside the root of extensible constraints; non-canonical inputs are out of the claim",
+			"three message cases in four stay inside the root of extensible constraints, the fourth also uses INTEGER values and string sizes of the extension range (CHOICE / ENUMERATED / SEQUENCE extension additions are not expressible in the Go types); non-canonical inputs are out of the claim",
 		},
 		N: func(t string) int {
 			if t == "thorough" {
@@ -240,7 +240,9 @@ func runC04(c *fw.Case) (o fw.Outcome) {
 	case k <= 6:
 		ms := ngapMessages()
 		m := ms[((c.Idx/10)*7+k)%len(ms)]
-		pdu, g := genPDU(c.R, m, 40+c.R.Intn(400), c.Thorough(), true)
+		// one case in four leaves the ROOT of extensible constraints where the library supports it (INTEGER values and
+		// string sizes in the extension range are constraint-satisfying values of an extensible type)
+		pdu, g := genPDU(c.R, m, 40+c.R.Intn(400), c.Thorough(), c.Idx%40 >= 10)
 		canon := roundTrip(&o, reflect.ValueOf(pdu), pduTag, m.Name)
 		o.Tag("msg:" + m.Name)
 		for _, a := range g.OpenAlts {
